@@ -19,7 +19,12 @@ fn gen_case(rng: &mut Rng, thorough: bool) -> Value {
     let order = descendants_first_order(&marks, rng);
     let decoy: Value = if rng.chance(2, 3) { json!(rng.below(54) as i64 - 3) } else { Value::Null };
     json!({"tree": tree.to_wire(), "order": order, "decoy": decoy, "exp_in": if rng.chance(1, 3) { json!(*rng.pick(&[0i64, 1, 60, 3600, -5, 1_000_000_000])) } else { Value::Null },
-           "invalid": rng.below(3) != 0, "invalid_seed": rng.next() % 1_000_000})
+           "invalid": rng.below(3) != 0, "invalid_seed": rng.next() % 1_000_000,
+           // an `exp` already among the claims, an earlier expiry request that the later one must replace, and a
+           // new request between the second and the third encode()
+           "exp_pre": if rng.chance(1, 5) { json!(*rng.pick(&[1_570_000_000i64, 4_000_000_000, 0])) } else { Value::Null },
+           "exp_first": if rng.chance(1, 5) { json!(*rng.pick(&[5i64, 86_400, 7])) } else { Value::Null },
+           "exp_mid": if rng.chance(1, 5) { json!(*rng.pick(&[120i64, 86_400, 3])) } else { Value::Null }})
 }
 
 /// (array pointer, length) and (object pointer) sites of the claims, for crafting invalid paths
@@ -91,9 +96,16 @@ pub fn run_case(ctx: &mut Ctx, case: &Value) {
     let marks = tree.marks();
     let order: Vec<usize> = case["order"].as_array().cloned().unwrap_or_default().iter().map(|v| v.as_u64().unwrap_or(0) as usize).collect();
     let mut paths: Vec<String> = order.iter().map(|id| mark_by_id(&marks, *id).path.clone()).collect();
-    let claims = tree.plain();
+    let mut claims = tree.plain();
     let decoy = case["decoy"].as_i64().map(|n| n as i32);
     let exp_in = case["exp_in"].as_i64();
+    let exp_pre = case["exp_pre"].as_i64();
+    let exp_first = case["exp_first"].as_i64().filter(|_| exp_in.is_some());
+    let exp_mid = case["exp_mid"].as_i64();
+    if let (Some(e), Some(o)) = (exp_pre, claims.as_object_mut()) {
+        // only when no path addresses the member
+        if !paths.iter().any(|p| p == "/exp" || p.starts_with("/exp/")) { o.insert("exp".into(), json!(e)); }
+    }
     let mut must_err = false;
     let mut kind = "valid";
     if case["invalid"].as_bool().unwrap_or(false) {
@@ -125,10 +137,12 @@ pub fn run_case(ctx: &mut Ctx, case: &Value) {
         let mut h = Header::new(Algorithm::HS256);
         h.typ = Some("sd-jwt".into());
         issuer.header(h);
+        if let Some(n) = exp_first { issuer.expires_in_seconds(n); }
         if let Some(n) = exp_in { issuer.expires_in_seconds(n); }
-        let before = format!("{:?}", issuer);
+        let mut before = format!("{:?}", issuer);
         let mut outs = Vec::new();
-        for _ in 0..3 {
+        for round in 0..3 {
+            if let (2, Some(n)) = (round, exp_mid) { issuer.expires_in_seconds(n); before = format!("{:?}", issuer); }
             let r = issuer.encode(&enc);
             let after = format!("{:?}", issuer);
             outs.push((r.map_err(|e| (real::err_class(&e).to_string(), e.to_string())), after == before));
@@ -205,14 +219,16 @@ pub fn run_case(ctx: &mut Ctx, case: &Value) {
     // --- every output is a fresh valid SD-JWT for the same claims (C01 per output), distinct from the others
     if first_ok && kind == "valid" {
         let toks: Vec<String> = outs.iter().filter_map(|o| o.0.as_ref().ok().cloned()).collect();
-        let validation = if exp_in.is_some() && exp_in.unwrap() > 10 { Validation::default().with_algorithm(Algorithm::HS256) } else { Validation::default().without_expiry().with_algorithm(Algorithm::HS256) };
+        let validation = if exp_in.is_some() && exp_in.unwrap() > 10 && exp_mid.map_or(true, |m| m > 10) { Validation::default().with_algorithm(Algorithm::HS256) } else { Validation::default().without_expiry().with_algorithm(Algorithm::HS256) };
         let mut all_discs: Vec<String> = Vec::new();
-        for t in &toks {
+        for (round, t) in toks.iter().enumerate() {
+            // the expiry request in force for this output
+            let exp_in = if round == 2 && exp_mid.is_some() { exp_mid } else { exp_in };
             let hv = real::holder_verify(t, &dec, &validation);
             let mut expected = claims.clone();
             let p = real::peek_jwt(&split_token(t).0).map(|x| x.1).unwrap_or(Value::Null);
             if let Some(e) = p.get("exp") {
-                if claims.get("exp").is_none() { expected["exp"] = e.clone(); }
+                if claims.get("exp").is_none() || exp_in.is_some() { expected["exp"] = e.clone(); }
                 if let (Some(n), Some(ev)) = (exp_in, e.as_i64()) {
                     if ev < t0 + n || ev > t1 + n {
                         ctx.report.diff("property", "Issuer::expires_in_seconds", "Issuer::expires_in_seconds:not-now-plus-n", &c2, json!({"exp": ev, "t0": t0, "t1": t1, "n": n}));
@@ -241,7 +257,7 @@ pub fn run_case(ctx: &mut Ctx, case: &Value) {
 }
 
 pub fn run(ctx: &mut Ctx, replay: Option<&Value>) {
-    ctx.report.rule = "random claims objects x valid descendants-first markings (incl. only-nested / only-array) x decoy maxima in [-3,50] x optional expiry, one third unchanged and two thirds with exactly one extra path of a random kind at a random position (unknown member, index out of range, non-numeric / overflowing index, no leading slash, path inside an already disclosed claim, bad escape; and repeated path, '+' and leading-zero indices which only the model decides); 3 encode() calls per issuer object with its Debug rendering compared before/after, every valid output verified by Holder::verify; Ok/Err class and payload compared with the Impl model of the issuer; non-trivial = distinct (tree, path list, decoy maximum)".to_string();
+    ctx.report.rule = "random claims objects x valid descendants-first markings (incl. only-nested / only-array) x decoy maxima in [-3,50] x optional expiry (also on claims that already carry an `exp`, requested twice, and requested anew between the second and third encode()), one third unchanged and two thirds with exactly one extra path of a random kind at a random position (unknown member, index out of range, non-numeric / overflowing index, no leading slash, path inside an already disclosed claim, bad escape; and repeated path, '+' and leading-zero indices which only the model decides); 3 encode() calls per issuer object with its Debug rendering compared before/after, every valid output verified by Holder::verify; Ok/Err class and payload compared with the Impl model of the issuer; non-trivial = distinct (tree, path list, decoy maximum)".to_string();
     if let Some(case) = replay {
         run_case(ctx, case);
         return;
